@@ -155,6 +155,47 @@ static int expected_blocks(const eav_t *e)
     return n;
 }
 
+/* Two long-lived *decoy* objects with settings unlike the history's (A: mode 822, tld off; B: mode 5322, tld on, allow_tld = 0) exist
+ * next to the object under test and validate a fixed address before each of its validations: their outcomes must never change (state
+ * leaking from one object into another), whatever is done to the object under test.  ASCII modes only: no IDN conversion, no back-end
+ * context, so fault plans and adapter ledgers are not disturbed. */
+static eav_t *decoy[2];
+static int decoy_base[2][3];
+static unsigned decoy_msg[2];
+static const char *decoy_addr[2] = { "\"a\tb\"@x.zzzz", "user@mail.ru" };
+
+static unsigned dh(const char *s) { unsigned h = 2166136261u; if (!s) return 0; for (; *s; s++) h = (h ^ (unsigned char)*s) * 16777619u; return h; }
+
+static void decoys_check(const char *when)
+{
+    int k;
+    if (getenv("VERIF_NO_DECOY")) return;
+    for (k = 0; k < 2; k++) {
+        int ret, fresh = 0;
+        if (!decoy[k]) {
+            decoy[k] = malloc(sizeof *decoy[k]);
+            eav_init(decoy[k]);
+            decoy[k]->rfc = k ? EAV_RFC_5322 : EAV_RFC_822;
+            decoy[k]->tld_check = k ? true : false;
+            if (k) decoy[k]->allow_tld = 0;
+            if (eav_setup(decoy[k]) != 0) { fprintf(stderr, "\nDRV-DECOY set-up failed\n"); exit(71); }
+            fresh = 1;
+        }
+        ret = eav_is_email(decoy[k], decoy_addr[k], strlen(decoy_addr[k]));
+        if (fresh) {
+            decoy_base[k][0] = ret; decoy_base[k][1] = decoy[k]->errcode; decoy_base[k][2] = decoy[k]->result ? decoy[k]->result->rc : -9999;
+            decoy_msg[k] = dh(eav_errstr(decoy[k]));
+        } else if (ret != decoy_base[k][0] || decoy[k]->errcode != decoy_base[k][1] ||
+                   (decoy[k]->result ? decoy[k]->result->rc : -9999) != decoy_base[k][2] || dh(eav_errstr(decoy[k])) != decoy_msg[k]) {
+            fflush(stdout);
+            fprintf(stderr, "\nDRV-DECOY object-interference: a second, untouched object (mode %s) changed its outcome for %s %s: ret %d->%d errcode %d->%d rc %d->%d message '%s'\n",
+                    k ? "5322 tld-on allow=0" : "822 tld-off", decoy_addr[k], when, decoy_base[k][0], ret, decoy_base[k][1], decoy[k]->errcode,
+                    decoy_base[k][2], decoy[k]->result ? decoy[k]->result->rc : -9999, eav_errstr(decoy[k]));
+            _exit(72);
+        }
+    }
+}
+
 static void run_history(char *line)
 {
     eav_t *e = malloc(sizeof *e);
@@ -165,6 +206,7 @@ static void run_history(char *line)
     long base_cf = verif_idn_create_failures;
     verif_idn_plan_create_failure(0);
 #endif
+    decoys_check("before the history");
     poison(e, 0xA5, sizeof *e);
     g_stage = "eav_init";
     LIB(eav_init(e));
@@ -197,6 +239,8 @@ static void run_history(char *line)
             int idx = (int)strtol(tok + 1, NULL, 10), ret, fret;
             eav_t *f;
             if (confirmed < 0 || idx < 0 || idx >= pool_n) { printf("[\"skip\"]"); break; }
+            g_stage = "decoy";
+            decoys_check("while another object was being used");
             g_stage = "eav_is_email";
 #ifdef VERIF_WRAP_IDN2
             fault_fired = 0;
@@ -325,6 +369,7 @@ int main(void)
         else printf("null\n");
     }
     { int i; for (i = 0; i < pool_n; i++) free(pool[i]); free(pool); free(pool_len); }
+    { int k; for (k = 0; k < 2; k++) if (decoy[k]) { eav_free(decoy[k]); free(decoy[k]); } }
     free(line);
     return 0;
 }
